@@ -1,6 +1,7 @@
 #pragma once
 // Front-end verbs: lex (token stream of the SQF tokenizer), asm (instruction listing).
 #include "parser/sqf/tokenizer.hpp"
+#include "parser/sqf/sqf_formatter.h"
 
 namespace vh
 {
@@ -49,5 +50,18 @@ namespace vh
         auto set = v.rt->parser_sqf().parse(*v.rt, text, sqf::runtime::fileio::pathinfo(std::string("f"), std::string()));
         if (!set.has_value()) { return "parse-error"; }
         return "ok " + render_set(*set);
+    }
+
+    // pretty <text>: the CLI pretty printer (sqf_formatter) applied to the text:
+    //   "ok <pretty text>" | "parse-error" | "empty"
+    inline std::string verb_pretty(const std::vector<std::string>& f)
+    {
+        std::string text = f.empty() ? std::string() : f[0];
+        auto& v = cached_vm(regmode::real);
+        sqf::parser::sqf::formatter fmt(*v.rt, text, sqf::runtime::fileio::pathinfo(std::string("f"), std::string()));
+        std::ostringstream out;
+        fmt.prettify(fmt.getRes(), 0, out);
+        if (out.str().empty()) { return "empty"; }
+        return "ok " + out.str();
     }
 }
